@@ -266,6 +266,7 @@ T_Q2 = G.Table([
     (12, G.o_publish_q2), (3, G.o_publish_q1), (10, G.o_pubrec), (8, G.o_pubcomp), (2, G.o_puback), (6, G.o_fire),
     (2, G.o_advance_small), (4, G.o_lose_reconnect_persist), (1, G.o_lose_reconnect_clean), (1, G.o_lose),
     (2, G.o_reconnect_persist), (1, G.o_connack_ok), (1, G.o_window), (1, G.o_settle),
+    (2, G.o_resume_with_publish), (1, G.o_late_connack),
 ])
 
 
